@@ -280,22 +280,41 @@ class Roles:
         return out
 
     # ---- process / incremental roles
+    def spawn_raw(self):
+        """[(raw body, bb, term)] of every process spawn API call"""
+        return self._memo("spawn_raw", lambda: [(b, bb, t) for b in self.f.user_bodies() for bb, t in b.calls() if is_process_spawn(t["callee"]["base"])])
+
     def spawn_sites(self):
-        """[(body, bb, term)] of every process spawn API call"""
+        """[(view, bb, term)] of every process spawn API call, located in the root view that contains it (a spawn extracted into a helper is judged
+        in the function that uses its result)"""
         def go():
             out = []
-            for b in self.f.code_bodies():
+            for b in self.f.user_bodies():
                 for bb, t in b.calls():
                     if is_process_spawn(t["callee"]["base"]):
-                        out.append((b, bb, t))
+                        root = self.container(b)
+                        rv = self.V(root)
+                        nb = bb if root.name == b.name else rv.locate(b.name, bb)
+                        if nb is None:
+                            rv, nb = self.V(b), bb
+                        out.append((rv, nb, rv.term(nb)))
             return out
         return self._memo("spawn_sites", go)
 
     def script_runners(self):
-        return self._memo("script_runners", lambda: [b for (b, s) in self.bodies_constructing("BuildTerminationReport", "Completed")])
+        """minimal views that spawn a process and construct BuildTerminationReport::Completed"""
+        def go():
+            cands = [b for b in self.f.user_bodies() if list(self.V(b).aggregates("BuildTerminationReport", "Completed")) and
+                     any(is_process_spawn(t["callee"]["base"]) for _, t in self.V(b).calls())]
+            return [self.V(b) for b in self.minimal(cands)]
+        return self._memo("script_runners", go)
 
     def incremental_runners(self):
-        return self._memo("incr_runners", lambda: [b for (b, s) in self.bodies_constructing("IncrementalRunResult", "Completed")])
+        """minimal views that construct IncrementalRunResult::Completed and ::Skipped"""
+        def go():
+            cands = [b for b in self.f.user_bodies() if list(self.V(b).aggregates("IncrementalRunResult", "Completed")) and list(self.V(b).aggregates("IncrementalRunResult", "Skipped"))]
+            return [self.V(b) for b in self.minimal(cands)]
+        return self._memo("incr_runners", go)
 
     def state_path_fns(self):
         """local fns whose return value derives from the `.checksums` literal"""
